@@ -17,6 +17,7 @@ import (
 	cacheplug "github.com/IrineSistiana/mosdns/v5/plugin/executable/cache"
 	"github.com/IrineSistiana/mosdns/v5/pkg/query_context"
 	"github.com/miekg/dns"
+	"google.golang.org/protobuf/encoding/protowire"
 	"google.golang.org/protobuf/proto"
 	"verif/sim/simdisk"
 	"verif/sim/simrt"
@@ -527,7 +528,7 @@ func c19Main(rc *RunCtx) {
 	}
 	// ---- structurally valid dumps with damaged entries ----
 	if rc.Viol == nil && simrt.Choose(3) == 0 {
-		blk := new(cacheplug.CacheDumpBlock)
+		var pb []byte // CacheDumpBlock, encoded by hand (dump.proto: entries=1; key=1 msg=2 cache_exp=3 msg_exp=4 stored=5)
 		now := time.Now().Unix()
 		q := mkQuery("crafted.test.", dns.TypeA, 1)
 		okMsg := packOrPanic(genAnswer(rc.R, q, []uint32{300}, true))
@@ -554,12 +555,19 @@ func c19Main(rc *RunCtx) {
 			if simrt.Choose(4) == 0 {
 				key = nil
 			}
-			blk.Entries = append(blk.Entries, &cacheplug.CachedEntry{Key: key, Msg: msg,
-				CacheExpirationTime: now + int64(simrt.Choose(7200)) - 600, MsgExpirationTime: now + int64(simrt.Choose(7200)) - 600, MsgStoredTime: now - int64(simrt.Choose(100))})
-		}
-		pb, err := proto.Marshal(blk)
-		if err != nil {
-			panic(err)
+			var e []byte
+			e = protowire.AppendTag(e, 1, protowire.BytesType)
+			e = protowire.AppendBytes(e, key)
+			e = protowire.AppendTag(e, 2, protowire.BytesType)
+			e = protowire.AppendBytes(e, msg)
+			e = protowire.AppendTag(e, 3, protowire.VarintType)
+			e = protowire.AppendVarint(e, uint64(now+int64(simrt.Choose(7200))-600))
+			e = protowire.AppendTag(e, 4, protowire.VarintType)
+			e = protowire.AppendVarint(e, uint64(now+int64(simrt.Choose(7200))-600))
+			e = protowire.AppendTag(e, 5, protowire.VarintType)
+			e = protowire.AppendVarint(e, uint64(now-int64(simrt.Choose(100))))
+			pb = protowire.AppendTag(pb, 1, protowire.BytesType)
+			pb = protowire.AppendBytes(pb, e)
 		}
 		var zb bytes.Buffer
 		gw := gzip.NewWriter(&zb)
